@@ -1,0 +1,31 @@
+//go:build verif
+
+// Contracts for the verification machinery in /verif (comment-only; excluded from normal builds).
+// Property C21 (partial). Mode int.
+
+package lsp
+
+// bytes.Buffer as an opaque accumulator: only what the splice needs (no panic, Bytes returns some slice).
+//@ extern (*bytes.Buffer).Write
+//@   trusted
+//@ extern (*bytes.Buffer).WriteString
+//@   trusted
+//@ extern (*bytes.Buffer).Bytes
+//@   mode int
+//@   ensures isfresh(result)
+//@   trusted
+//@ extern fmt.Errorf
+//@   ensures result != nil
+//@   pure
+//@   trusted
+
+// applyIncrementalChanges: every change is mapped by a Mapper built for the content that change applies to
+// (the precondition of RangeOffsets: a line table, once computed, belongs to the Mapper's current content),
+// and the two slice expressions of the splice cannot panic: 0 <= start <= end <= len(content).
+//@ func (*LSPServer).applyIncrementalChanges
+//@   mode int
+//@   requires s != nil
+//@   loop 0 invariant -1 <= rangeindex && rangeindex < len(changes)
+//@   noframe
+//@   safe
+//@   property C21
